@@ -4,6 +4,7 @@
 import CM.Driver.Codec
 import CM.Driver.RelOps
 import CM.Model.Shard
+import CM.Model.Impure
 open Lean
 namespace CM
 
@@ -47,6 +48,8 @@ def opVm (j : Json) : P Json := do
       let g : Graph := { nodes := nodes, inputs := inputs, output := out }
       if t == "hash_graph" then
         outs := outs.push (Json.mkObj [("h", hresToJson g.hashGraph), ("valid", .bool g.validate)])
+      else if t == "detect_impure" then
+        outs := outs.push (Json.mkObj [("impure", .bool (detectImpure g out))])
       else if t == "sig" then
         outs := outs.push (Json.mkObj [("sig", toJson g.signature), ("valid", .bool g.validate)])
       else
